@@ -152,6 +152,13 @@ def scenarios(ctx):
                    inpubs=((2, False, False, 1, 'short'),), inrels=((1,),),
                    connects=[(False, 0, 4)], reconnects=[(False, 0, 4)],
                    budgets=dict(tick=1), addr_budgets=[S, dict(sub=1, ack=1, inpub=1, inrel=1, tick=1 if not q else 0)]))
+    # S4: keepalive machinery of the two connections (one broker silent, the other answering)
+    KA = (('connect', 0, True, 2, 4), ('connack', 0, 0, False), ('connect', 1, True, 2, 4), ('connack', 1, 0, False))
+    out.append(Std('keepalive', profile='pub', naddr=2, init=KA, closing=False, pub_qos=(1,),
+                   connects=[(True, 2, 4)], reconnects=[(True, 2, 4), (True, 0, 4)],
+                   budgets=dict(tick=4 if q else 6),
+                   addr_budgets=[dict(pingresp=1, tick=4 if q else 6, lose=1, rebuild=1, connect=1, connack=1),
+                                 dict(pingresp=2, tick=4 if q else 6, pub=0 if q else 1)]))
     if not q:
         out.append(Std('both-from-scratch', profile='pub', naddr=2, closing=False, pub_qos=(1,),
                        connects=[(True, 0, 4)], budgets=dict(tick=1),
